@@ -1,11 +1,18 @@
 /-
   Mxj.Props.C02 — "Decode → encode → decode is a fixed point" (and the bridge from bytes to trees).
 
-  Part 1 (`C02_bytes_eq_render`): the bytes the compact encoder writes are the canonical
-  rendering (`render`) of the tree `encTree` builds, and the encoder fails exactly when the
-  tree builder fails.
+  Part 1 (`C02_marshal_eq_render`, `C02_bytes_eq_render`): the bytes the compact encoder writes
+  are the canonical rendering (`render`) of the tree `encTree` builds, and the encoder fails
+  exactly when the tree builder fails.
+  Part 2 (`C02_decoded`, `C02_decoded_image`, `C02_fixed_point_tree`): a Map produced by the
+  decoding conventions has the shape `Decoded`; such a Map is its own image; hence encoding it
+  and applying the conventions to the encoder's tree gives an equivalent Map.
+  Part 3 (`TokLaw`, `C02_fixed_point_bytes`): through bytes, with the XML tokenizer as an
+  explicit trusted-base hypothesis and the stream decoder of C01.
 -/
 import Mxj.Lemmas.Encode
+import Mxj.Props.C16
+import Mxj.Props.C01
 namespace Mxj.C02
 open Mxj Mxj.Enc
 
@@ -47,5 +54,126 @@ theorem C02_error_iff (cfg : EncCfg) (key : Str) (v : Val) (e : ErrKind)
 /-- the tree is never empty: a value encodes to at least one element -/
 theorem C02_tree_nonempty (cfg : EncCfg) (key : Str) (v : Val) (ns : List Node)
     (h : encTree cfg key v = .ok ns) : ns ≠ [] := encTree_ne_nil cfg key v ns h
+
+/-! ### Part 2: the fixed point at tree level -/
+
+/-- what the conventions produce (default options) has the shape `Decoded`: leaves are trimmed
+    strings, lists have at least two non-list members, maps are non-empty and not text-only,
+    attribute entries are strings, the text entry is a non-empty trimmed string.
+    `NamesOk`: attribute names non-empty, child element names not of the form "-x…" —
+    otherwise the decoded key is re-encoded as the other kind
+    (`<a -x="1"/>`-style trees: an attribute named "" decodes to key "-", which is re-encoded
+    as a child ELEMENT `<->`; a child element named "-x" decodes to key "-x", which is
+    re-encoded as an ATTRIBUTE, or rejected if its value is a map). -/
+theorem C02_decoded (S : Strconv) (sp name : Str) (attrs : List Attr) (kids : List Node)
+    (hd : Conv.inDomain dc S (.elem sp name attrs kids) = true)
+    (hn : NamesOk (.elem sp name attrs kids) = true) :
+    Decoded (Conv.value dc S (.elem sp name attrs kids)) = true :=
+  value_decoded S _ hd hn rfl
+
+/-- a `Decoded` value is its own image -/
+theorem C02_decoded_image (v : Val) (h : Decoded v = true) : image v ≈ᵥ v := image_decoded v h
+
+/-- … is accepted by the encoder, and stays `Decoded` when normalised -/
+theorem C02_decoded_domain (v : Val) (h : Decoded v = true) : EncDomain v = true :=
+  Decoded_EncDomain v h
+theorem C02_decoded_norm (v : Val) (h : Decoded v = true) : Decoded v.norm = true :=
+  Decoded_norm v h
+
+/-- XML → Map → XML → Map is a fixed point (tree level, default options): for an in-domain
+    tree `t`, `Conv.doc dc S t` is a one-entry Map `{root}`; encoding it (root selection of
+    `mv.Xml()`: the single key becomes the root tag) succeeds with a single tree `n`, and the
+    conventions applied to `n` give an equivalent Map -/
+theorem C02_fixed_point_tree (S : Strconv) (sp name : Str) (attrs : List Attr) (kids : List Node)
+    (hd : Conv.inDomain dc S (.elem sp name attrs kids) = true)
+    (hnames : NamesOk (.elem sp name attrs kids) = true) :
+    ∃ root, Conv.doc dc S (.elem sp name attrs kids) = .map [root] ∧
+      ∃ n, encTree ec root.1 root.2.norm = .ok [n]
+        ∧ Conv.doc dc S n ≈ᵥ Conv.doc dc S (.elem sp name attrs kids) := by
+  obtain ⟨n, hn, hdoc, hv⟩ := fixed_point_value S sp name attrs kids hd hnames
+  refine ⟨(name, Conv.value dc S (.elem sp name attrs kids)), rfl, n, hn, ?_⟩
+  rw [hdoc]
+  have h2 : Conv.doc dc S (.elem sp name attrs kids)
+      = .map [(name, Conv.value dc S (.elem sp name attrs kids))] := rfl
+  rw [h2]
+  unfold Val.equiv at hv ⊢
+  simp only [norm_singleton_map, hv]
+
+/-! ### Part 3: through bytes -/
+
+/-- TB-XML: what the standard tokenizer (`xml.Decoder.RawToken` on the bytes, collected until
+    EOF) returns for the canonical rendering, with escaping on, of a canonical well-named tree:
+    the tree's own token sequence.  (`WellNamed`: empty name spaces, colon-free ASCII XML
+    names, only XML characters other than '\r' in text and attribute values, no empty text
+    node, no two adjacent text nodes, only elements and text.)  That entity references are
+    expanded back to the original characters is `C05_unescape_escape`. -/
+structure TokLaw (tokens : Str → List Tok) : Prop where
+  render_flatten : ∀ (cfg : EncCfg) (n : Node), cfg.escape = true → WellNamed n = true →
+    tokens (render cfg n) = flatten n
+
+/-- `mv.Xml()` on the one-entry Map the decoder produces uses the entry as the root -/
+theorem mapXml_decoded (k : Str) (v : Val) (h : Decoded v = true) :
+    mapXml ec [(k, v)] none = marshal ec k v := by
+  unfold Decoded at h
+  simp only [Bool.and_eq_true, Bool.not_eq_true'] at h
+  cases v with
+  | list _ => simp [Val.isList] at h
+  | null | bool _ | num _ | str _ | map _ => rfl
+
+/-- XML → Map → XML → Map through bytes: decode the token stream of an in-domain tree `t`
+    (`newMapXml`, C01), encode the Map with `mv.Xml()` (`mapXml`, escaping on), tokenize the
+    bytes (`tokens`, TB-XML) and decode again: the second Map is equivalent to the first.
+    `hwn` asks that the tree the encoder builds is well-named (it is built from the names and
+    the trimmed strings of `t`; that `WellNamed t` is inherited is not proved here, the
+    predicate is executable). -/
+theorem C02_fixed_point_bytes (tokens : Str → List Tok) (law : TokLaw tokens) (S : Strconv)
+    (fin : StreamEnd) (pre post : List Tok) (hpre : ∀ t ∈ pre, ¬ isStart t)
+    (sp name : Str) (attrs : List Attr) (kids : List Node)
+    (hd : Conv.inDomain dc S (.elem sp name attrs kids) = true)
+    (hadj : noAdjText (.elem sp name attrs kids) = true)
+    (hnames : NamesOk (.elem sp name attrs kids) = true)
+    (hwn : ∀ n, encTree ec name (Conv.value dc S (.elem sp name attrs kids)).norm = .ok [n] →
+      WellNamed n = true) :
+    ∃ m out m',
+      newMapXml dc S (pre ++ flatten (.elem sp name attrs kids) ++ post) fin = .ok (.map m)
+      ∧ mapXml ec m none = .ok out
+      ∧ newMapXml dc S (tokens out) fin = .ok m'
+      ∧ m' ≈ᵥ .map m := by
+  -- first decode
+  obtain ⟨x, hx, hxe⟩ := C01.C01_decode_one_root dc S fin pre post hpre sp name attrs kids hd hadj
+  have hD := C02_decoded S sp name attrs kids hd hnames
+  -- encode: same bytes as for the conventions' value
+  have hm1 : Val.map [(name, x)] ≈ᵥ Val.map [(name, Conv.value dc S (.elem sp name attrs kids))] := by
+    unfold Val.equiv at hxe ⊢
+    simp only [norm_singleton_map, hxe]
+  obtain ⟨n, hn, hdoc, hv⟩ := fixed_point_value S sp name attrs kids hd hnames
+  have hbytes : mapXml ec [(name, x)] none = .ok (render ec n) := by
+    rw [C16.C16_mapXml_perm_invariant ec _ _ none hm1, mapXml_decoded name _ hD,
+      C02_render_eq_bytes ec name _ [n] (Decoded_Plain _ hD) hn]
+    simp
+  -- tokenize and decode again
+  have hW := hwn n hn
+  obtain ⟨a', k', e⟩ := encTree_single ec name _ [n] (by
+    have := Decoded_norm _ hD
+    unfold Decoded at this
+    simp only [Bool.and_eq_true, Bool.not_eq_true'] at this
+    exact this.1) hn
+  have e' : n = .elem [] name a' k' := by simpa using e
+  subst e'
+  have hdom : Conv.inDomain dc S (.elem [] name a' k') = true := by
+    obtain ⟨_, _, e, h⟩ := encTree_dom S name _ _ hn _ (List.mem_singleton.2 rfl)
+    exact h
+  have hadj' : noAdjText (.elem [] name a' k') = true := by
+    unfold WellNamed at hW
+    simp only [Bool.and_eq_true] at hW
+    exact hW.2
+  obtain ⟨m', hm', hme⟩ := C01.C01_decode_conventions dc S fin [] [] (by simp) [] name a' k' hdom hadj'
+  refine ⟨[(name, x)], render ec (.elem [] name a' k'), m', hx, hbytes, ?_, ?_⟩
+  · rw [law.render_flatten ec _ rfl hW]
+    simpa using hm'
+  · refine Val.equiv_trans hme ?_
+    rw [hdoc]
+    unfold Val.equiv at hv hxe ⊢
+    simp only [norm_singleton_map, hv, hxe]
 
 end Mxj.C02
